@@ -360,6 +360,134 @@ def rules(rep, m):
     else:
         r4.ok()
 
+    # R-C17-6 restart ------------------------------------------------------------
+    r6 = rep.rule("R-C17-6", "every function that restarts a summary (sets the count to 0) also restarts, itself or through the "
+                  "functions it calls, every other statistic of the type it is given: minimum to +max/infinity, maximum to "
+                  "-max/-infinity, the four moments to 0, and for a weighted summary the weight sum to 0 - an empty summary "
+                  "is an operand of merge, which reads all of them", floor=4)
+    import sys as _sys
+
+    def own_stores(f):
+        """member stores of f through its first parameter (possibly cast): {field: [rhs node]}"""
+        out = {}
+        if not f.params:
+            return out
+        fx = FuncCtx(m, f)
+        p0 = f.params[0]["name"]
+        for l, r_, k_, n_ in inv.stores(f):
+            l0 = strip(l, casts=True)
+            if l0["kind"] == "MemberExpr" and k_ == "=" and r_ is not None:
+                base = fx.canon(kids(l0)[0])
+                if base == p0 or base.endswith(")" + p0) or re.sub(r"^\(.*?\)", "", base) == p0:
+                    out.setdefault(l0.get("name"), []).append(r_)
+        return out
+
+    def closure_stores(f, seen=None):
+        seen = seen if seen is not None else set()
+        if f.name in seen:
+            return {}
+        seen.add(f.name)
+        out = {k_: list(v_) for k_, v_ in own_stores(f).items()}
+        fx = FuncCtx(m, f)
+        p0 = f.params[0]["name"] if f.params else None
+        for c in walk(f.body):
+            if c["kind"] == "CallExpr" and len(kids(c)) > 1:
+                cal = m.func_named(callee_ref(c) or "")
+                a0 = fx.canon(kids(c)[1])
+                if cal and cal[0].body is not None and (a0 == p0 or re.sub(r"^\(.*?\)", "", a0) == p0):
+                    for k_, v_ in closure_stores(cal[0], seen).items():
+                        out.setdefault(k_, []).extend(v_)
+        return out
+
+    def fval(n_):
+        n_ = strip(n_, casts=True)
+        if n_["kind"] == "UnaryOperator" and n_.get("opcode") == "-":
+            v = fval(kids(n_)[0])
+            return None if v is None else -v
+        if n_["kind"] in ("IntegerLiteral", "FloatingLiteral"):
+            return float_value(n_)
+        if n_["kind"] == "CallExpr" and (callee_ref(n_) or "") in ("__builtin_inff", "__builtin_inf", "__builtin_huge_val", "__builtin_huge_valf"):
+            return float("inf")
+        return None
+    DBLMAX = _sys.float_info.max
+    WANT = {"count": lambda v: v == 0, "min": lambda v: v is not None and v >= DBLMAX, "max": lambda v: v is not None and v <= -DBLMAX,
+            "m1": lambda v: v == 0, "m2": lambda v: v == 0, "m3": lambda v: v == 0, "m4": lambda v: v == 0, "wsum": lambda v: v == 0}
+    for f in m.funcs.values():
+        if not f.params or f.body is None:
+            continue
+        t0 = (f.params[0].get("type") or "")
+        if "const" in t0 or not re.search(r"struct cmb_(datasummary|wtdsummary) \*", t0):
+            continue
+        cs = closure_stores(f)
+        if not any(fval(v_) == 0 for v_ in cs.get("count", [])):
+            continue
+        # add/merge write the count too, but never the constant 0 unconditionally on a fresh object: restrict to functions
+        # all of whose count stores are the constant 0
+        if not all(fval(v_) == 0 for v_ in cs.get("count", [])):
+            continue
+        need = ["count", "min", "max", "m1", "m2", "m3", "m4"] + (["wsum"] if "wtdsummary" in t0 else [])
+        r6.instance("%s(%s): restarts %s" % (f.name, t0, sorted(k_ for k_ in cs if k_ in WANT)))
+        for fld in need:
+            vals = [fval(v_) for v_ in cs.get(fld, [])]
+            if not vals:
+                rep.finding(r6, f.name, "restart:field-kept:" + fld, "%s restarts the count of a '%s' but neither it nor the functions it "
+                            "calls restart '%s': the summary then looks empty while %s keeps its old value, which merge (and the "
+                            "next first sample) read" % (f.name, t0.replace(" *", ""), fld, fld), where=m.rel(f.where))
+                r6.fail()
+            elif not all(WANT[fld](v) for v in vals):
+                rep.finding(r6, f.name, "restart:value:" + fld, "%s restarts '%s' with %s: an empty summary must hold count 0, "
+                            "zero moments and weight sum, and extremes that every finite sample replaces (min = DBL_MAX or "
+                            "infinity, max = -DBL_MAX or -infinity)" % (f.name, fld, vals), where=m.rel(f.where))
+                r6.fail()
+            else:
+                r6.ok()
+
+    # R-C17-7 extremes on every counted path ------------------------------------------
+    r7 = rep.rule("R-C17-7", "add: on every path that counts the sample, the minimum and the maximum are updated with it (a "
+                  "comparison-and-replace, or set to the sample when it is the first): conditions under which the count is "
+                  "raised imply the conditions under which the extremes are updated", floor=2)
+    for f in (ds_add, ws_add):
+        cx = FuncCtx(m, f)
+        xn = f.params[1]["name"]
+        counts = []
+        for y in walk(f.body):
+            if y["kind"] == "UnaryOperator" and y.get("opcode") == "++" and cx.canon(kids(y)[0]).endswith("->count"):
+                counts.append(y)
+        for l, r_, k_, n_ in inv.stores(f):
+            if cx.canon(l).endswith("->count") and k_ in ("=", "+=") and not any(n_ is c_ for c_ in counts):
+                counts.append(n_)
+
+        def updates(field, op):
+            rop = {">": "<", "<": ">"}[op]
+            out = []
+            for l, r_, k_, n_ in inv.stores(f):
+                lc = cx.canon(l)
+                if not lc.endswith("->" + field) or r_ is None:
+                    continue
+                v = cx.canon(r_)
+                own = ("(%s %s %s)" % (xn, op, lc), "(%s %s %s)" % (lc, rop, xn))
+                conds = [cd for cd in inv.dominating_conditions(cx, f, n_) if cd not in own]
+                tern = re.fullmatch(r"\(\(%s %s (.+)\) \? %s : \1\)" % (xn, op, xn), v) or \
+                    re.fullmatch(r"\(\((.+) %s %s\) \? %s : \1\)" % (rop, xn, xn), v)
+                guarded = v == xn and len(conds) < len(inv.dominating_conditions(cx, f, n_))
+                first = v == xn and any(re.fullmatch(r"\(.*->count == 0\)|!\(.*->count (!=|>) 0\)", cd) for cd in conds)
+                if tern or guarded or first:
+                    out.append((conds, n_))
+            return out
+        for c_ in counts:
+            cc = inv.dominating_conditions(cx, f, c_)
+            r7.instance("%s: count raised at line %s under %s" % (f.name, c_.get("line") or (loc(c_) or "").split(":")[-1], cc))
+            for field, op in (("max", ">"), ("min", "<")):
+                ok = any(all(cd in cc for cd in conds) for conds, n_ in updates(field, op))
+                if ok:
+                    r7.ok()
+                else:
+                    rep.finding(r7, f.name, "add:extreme-skipped:" + field, "%s counts the sample under %s, but no update of %s with "
+                                "the sample happens under conditions that these imply: on that path the sample is counted while "
+                                "the reported %s may not cover it (e.g. the first sample of an empty summary)"
+                                % (f.name, cc or "no condition", field, "maximum" if field == "max" else "minimum"), where=m.rel(loc(c_)))
+                    r7.fail()
+
 
 def run(tier="quick"):
     models = common.load_models(tier)
